@@ -183,10 +183,18 @@ Fixpoint any_grow (ish osh : list nat) : bool :=
   | _, _ => false
   end.
 
+(* the offset validation loop of resize_array *)
+Fixpoint offsets_invalid (ish osh : list nat) (offs : list Z) : bool :=
+  match ish, osh, offs with
+  | a :: i', b :: o', f :: f' => offset_invalid (Z.of_nat a) (Z.of_nat b) f || offsets_invalid i' o' f'
+  | _, _, _ => false
+  end.
+
 (* resize_array(arr, newshp, offset, pad_mode, pad_const, direction) *)
 Definition resizeN (m : pmode) (d : direction) (c : T) (castable : bool)
            (ishape : list nat) (arr : list T) (oshape : list nat) (offs : list Z) : outcome (list T) :=
-  if pmode_eqb m PConstant && negb castable && any_grow ishape oshape then ValueErr
+  if offsets_invalid ishape oshape offs then ValueErr
+  else if pmode_eqb m PConstant && negb castable && any_grow ishape oshape then ValueErr
   else if negb (is_fwd d) && pmode_eqb m PConstant && negb (c =? nzero) then ValueErr
   else
     let fillv := if is_fwd d && pmode_eqb m PConstant && negb (c =? nzero) then c else nzero in
